@@ -761,3 +761,80 @@ def asdf_reader(u: Unit):
             okf = isinstance(fr_now, VOpaque) and fr_now.info.get("label") == "pandas.DataFrame()" and len(fr_now.info.get("args", [])) == 1 and fr_now.info["args"][0] is h["frame"]
             u.oblige(p, "asdf.reader.cluster_table_rebuilt_from_the_files_table", bool(okf), {}, DATA_REPLAY)
         u.cover(f"asdf.reader.cover[{case}]", ps, lambda p, case=case: p.kind == ("return" if case == "ok" else "raise"))
+
+
+# ---- construction of the four detector types: every container exists, is of its own class and is built on THE detector's geometry ---------
+DETCTOR_REPLAY = lambda w: {"code": """
+import numpy as np
+from pyxel.detectors import CCD, CCDGeometry, CMOS, CMOSGeometry, MKID, MKIDGeometry, APD, APDGeometry, Characteristics, APDCharacteristics, Environment
+from pyxel.data_structure import Photon, Charge, Pixel, Signal, Image, Phase, Scene
+VIOLATED, DETAIL = False, 'a new detector holds its own geometry / environment / characteristics and one empty container of each kind on that geometry'
+for cls, geo, ch in ((CCD, CCDGeometry(row=3, col=4), Characteristics()), (CMOS, CMOSGeometry(row=5, col=2), Characteristics()), (MKID, MKIDGeometry(row=2, col=6), Characteristics()),
+                     (APD, APDGeometry(row=4, col=4), APDCharacteristics(roic_gain=0.8, avalanche_gain=2.0, pixel_reset_voltage=12.0))):
+    env = Environment(temperature=123.0)
+    d = cls(geometry=geo, environment=env, characteristics=ch)
+    kinds = {'photon': Photon, 'charge': Charge, 'pixel': Pixel, 'signal': Signal, 'image': Image, 'scene': Scene}
+    if cls is MKID: kinds['phase'] = Phase
+    bad = [k for k, t in kinds.items() if type(getattr(d, k)) is not t]
+    shapes = {k: tuple(getattr(d, k).shape) for k in ('pixel', 'signal', 'image') + (('phase',) if cls is MKID else ())}
+    if d.geometry is not geo or d.environment is not env or d.characteristics is not ch or bad or any(s != (geo.row, geo.col) for s in shapes.values()) or d._readout_properties is not None \\
+            or d.has_persistence() or d._memory != {} or not np.array_equal(d.charge.array, np.zeros((geo.row, geo.col))):
+        VIOLATED, DETAIL = True, f'{cls.__name__}: wrong container kinds {bad}, shapes {shapes}, own parts kept: {d.geometry is geo, d.environment is env, d.characteristics is ch}'; break
+""", "expect": "detector constructors keep their three parts and create every container of the type on the detector's own geometry"}
+
+
+@unit("C18", "ctor.detectors")
+def detector_ctors(u: Unit):
+    """CCD / CMOS / MKID / APD.__init__ (with Detector.__init__ and _initialize inlined; the container constructors are contracts that
+    record the class and the geometry they are given): the three parts are the given objects; scene, photon, charge, pixel, signal, image
+    (MKID: and phase) are fresh containers of THEIR class built on the detector's own geometry object; no readout clock, no persistence,
+    empty memory."""
+    DSQ = "pyxel/data_structure/"
+    kinds = {"_photon": ("photon.py", "Photon"), "_charge": ("charge.py", "Charge"), "_pixel": ("pixel.py", "Pixel"), "_signal": ("signal.py", "Signal"), "_image": ("image.py", "Image"),
+             "_scene": ("scene.py", "Scene"), "_phase": ("phase.py", "Phase")}
+    for det, path in (("CCD", "ccd/ccd.py"), ("CMOS", "cmos/cmos.py"), ("MKID", "mkid/mkid.py"), ("APD", "apd/apd.py")):
+        fi = u.fn(f"{DET}{path}::{det}.__init__")
+        u.fn(f"{DET}detector.py::Detector.__init__")
+        u.fn(f"{DET}detector.py::Detector._initialize")
+        ci = u.cls(f"{DET}{path}::{det}")
+        cfg = Cfg("real")
+        boundary.install(cfg)
+        rec = u.track({})
+        for fld, (mod, cname) in kinds.items():
+            q = f"{DSQ}{mod}::{cname}.__init__"
+            cfg.contracts[q] = Contract(q, lambda ex, args, kwargs, fr, cname=cname, rec=rec: (rec.setdefault("built", []).append((cname, args[0], dict(kwargs), list(args[1:]))), NONE)[1], f"{cname}(geo): an empty container on that geometry (C13)")
+        for gq in ("pyxel/util/memory.py::get_size", "pyxel/util/__init__.py::get_size"):
+            cfg.contracts[gq] = Contract(gq, lambda ex, args, kwargs, fr: VInt(ex.st.fresh_int("numbytes")), "size bookkeeping (pympler)")
+        cfg.lib_overrides["repo:pyxel.util.get_size"] = lambda ex, f, args, kwargs, fr: VInt(ex.st.fresh_int("numbytes"))
+
+        def setup(ex, rec=rec):
+            rec.clear()
+            h = ex.hold = {k: VOpaque("xr", None, {"label": k, "truthy": True}) for k in ("geometry", "environment", "characteristics")}
+            me = ex.st.alloc(HObj(ci, {}))
+            ex.me = me
+            return [me], dict(h)
+        ps = u.paths(fi, setup, cfg, label=f"{det}.__init__")
+        want = ["_scene", "_photon", "_charge", "_pixel", "_signal", "_image"] + (["_phase"] if det == "MKID" else [])
+        for p in ps:
+            if p.kind != "return":
+                u.oblige(p, f"ctor.detectors[{det}].returns", False, {"exc": p.exc_name()}, DETCTOR_REPLAY)
+                continue
+            f, h = p.st.cell(p.ex.me).fields, p.ex.hold
+            parts = f.get("_geometry") is h["geometry"] and f.get("_environment") is h["environment"] and f.get("_characteristics") is h["characteristics"]
+            built = {id_: (cname, kw, rest) for cname, id_, kw, rest in [(c, a.addr if isinstance(a, VRef) else None, k, r) for c, a, k, r in rec.get("built", [])]}
+            ok, detail = True, {}
+            for fld in want:
+                v = f.get(fld)
+                b = built.get(v.addr) if isinstance(v, VRef) else None
+                cname = kinds[fld][1]
+                good = b is not None and b[0] == cname and (cname == "Scene" or (b[1].get("geo") is h["geometry"] and not b[2]) or (b[2][:1] == [h["geometry"]] and not b[1]))
+                good = good and isinstance(v, VRef) and getattr(p.st.cell(v).cls, "name", None) == cname
+                ok = ok and good
+                if not good:
+                    detail[fld] = "missing or not a %s on the detector's geometry" % cname
+            once = len(rec.get("built", [])) == len(want) and len({id(x) for x in [f.get(k) for k in want]}) == len(want)
+            rest = isinstance(f.get("_readout_properties"), VNone) and isinstance(f.get("_persistence"), VNone) and p.ex.try_dict(f.get("_memory")) == [] and (det == "MKID" or "_phase" not in f or isinstance(f.get("_phase"), VNone))
+            u.oblige(p, f"ctor.detectors[{det}].keeps_its_parts", bool(parts), {}, DETCTOR_REPLAY)
+            u.oblige(p, f"ctor.detectors[{det}].one_container_of_each_kind_on_its_geometry", bool(ok and once), dict(detail, built=str([b[0] for b in rec.get("built", [])])), DETCTOR_REPLAY)
+            u.oblige(p, f"ctor.detectors[{det}].no_clock_no_memory", bool(rest), {}, DETCTOR_REPLAY)
+        u.cover(f"ctor.detectors.cover[{det}]", ps, lambda p: p.kind == "return")
